@@ -336,7 +336,11 @@ static int run_case(const case_t *c, int relax, char *sig, size_t sigcap, int *n
     static built_t b; int rc;
     g_nbvp_override = c->nbvp; g_relax = relax; g_case_serial++;
     g_guard = 1;
-    if ((rc = sigsetjmp(g_jmp, 1)) != 0) { g_guard = 0; g_nbvp_override = 0; g_relax = 0; snprintf(err, SX_ERRLEN, "%s", g_crash); return rc == 2 ? 3 : rc == 4 ? 4 : 1; }
+    if ((rc = sigsetjmp(g_jmp, 0)) != 0) {                 /* mask not saved (one syscall per case less): unblock by hand on the rare path */
+        sigset_t all; sigemptyset(&all); sigaddset(&all, SIGVTALRM); sigaddset(&all, SIGSEGV); sigaddset(&all, SIGBUS); sigaddset(&all, SIGFPE); sigaddset(&all, SIGABRT); sigaddset(&all, SIGILL);
+        sigprocmask(SIG_UNBLOCK, &all, NULL);
+        g_guard = 0; g_nbvp_override = 0; g_relax = 0; snprintf(err, SX_ERRLEN, "%s", g_crash); return rc == 2 ? 3 : rc == 4 ? 4 : 1;
+    }
     rc = build(c, &b, err);
     if (!rc) rc = check_views(c, &b, sig, sigcap, nontrivial, err);
     if (!rc) teardown(c, &b);          /* after a violation the objects are left alone */
@@ -520,7 +524,7 @@ static void install_handlers(void)
     struct itimerval it = { { 0, 100000 }, { 0, 100000 } }; setitimer(ITIMER_VIRTUAL, &it, NULL);
 }
 static parsec_context_t *g_ctx;
-static void rt_up(void) { int ac = 1; char *av[] = { "c20", NULL }, **pav = av; g_ctx = parsec_init(1, &ac, &pav); if (!g_ctx) { fprintf(stderr, "parsec_init failed\n"); _exit(2); } install_handlers(); }
+static void rt_up(void) { int ac = 1; char *av[] = { "c20", NULL }, **pav = av; g_ctx = parsec_init(1, &ac, &pav); if (!g_ctx) { fprintf(stderr, "parsec_init failed\n"); _exit(2); } }
 
 static int full_write(int fd, const void *p, size_t n) { const char *s = p; while (n) { ssize_t k = write(fd, s, n); if (k <= 0) { if (errno == EINTR) continue; return -1; } s += k; n -= (size_t)k; } return 0; }
 static int full_read(int fd, void *p, size_t n) { char *s = p; while (n) { ssize_t k = read(fd, s, n); if (k <= 0) { if (k < 0 && errno == EINTR) continue; return -1; } s += k; n -= (size_t)k; } return 0; }
@@ -542,7 +546,7 @@ static void scenario(const char *name, enum_fn fn, int workers, const char *boun
             for (int q = 0; q <= w; q++) close(fds[q][0]);
             sx_json = NULL;                                   /* only the parent writes the result file */
             W = workers; w_id = w; g_idx = 0; memset(&ws, 0, sizeof(ws)); memset(&g_out, 0, sizeof(g_out)); g_nsamples = 0; g_stop = 0; n_views = n_calls = 0;
-            rt_up();
+            install_handlers();                              /* the runtime was brought up once by the parent (single-threaded: safe to fork) */
             fn();
             long hdr[NHDR] = { ws.cases, ws.nontrivial, ws.violations, ws.cut || (g_stop && !ws.violations), n_views, n_calls, (long)g_out.n, g_nsamples, g_known_hits, 0, 0, 0 };
             full_write(fds[w][1], hdr, sizeof(hdr));
@@ -584,7 +588,7 @@ static int replay_one(const char *path)
 {
     char sc[128], h[4096]; case_t c;
     if (sx_read_replay(path, sc, sizeof(sc), h, sizeof(h)) || case_parse(h, &c)) { fprintf(stderr, "cannot parse replay file %s\n", path); return 2; }
-    rt_up();
+    rt_up(); install_handlers();
     static char cs[600], sig[8192], err[SX_ERRLEN]; int nt; case_str(&c, cs, sizeof(cs));
     printf("replay: %s\n", cs);
     g_verbose = 1;
@@ -604,7 +608,9 @@ int main(int argc, char **argv)
         else if (!strcmp(argv[a], "--known") && a + 1 < argc) { if (strstr(argv[++a], KF_ID)) g_known_rowcol = 1; }
     }
     if (sx_replay_file) return replay_one(sx_replay_file);
-    static const int vp1[] = { 1 }, vpq[] = { 1, 4, 6 }, vps[] = { 1, 2, 3, 4, 6 };
+    { double t_init = sx_now(); rt_up();                      /* ONE parsec_init(1,...) per check process; the workers are forked from it */
+      if (sx_deadline > 0) sx_deadline += sx_now() - t_init; }
+    static const int vp1[] = { 1 }, vp2[] = { 1, 6 }, vpq[] = { 1, 4, 6 }, vps[] = { 1, 2, 3, 4, 6 };
     int T = sx_tier_thorough;
 #define RUN(nm, fn, bj) do { if (!only || !strcmp(only, nm)) scenario(nm, fn, workers, "\"bounds\":\"" bj "\""); } while (0)
     if (!T) {
@@ -632,8 +638,10 @@ int main(int argc, char **argv)
         RUN("sym", e_sym, "upper/lower, mb=nb 1..3, lm=ln 1..10, P*Q<=16, diagonal sub-blocks (offset {0,1,mb} x size {rest,1}), nb_vp {1,2,3,4,6}");
         g_tabtiles = 4; g_tabnodes = 3; g_tabfull = 1;
         RUN("tabular_le4tiles_le3ranks", e_tab, "all tables over <=4 tiles x <=3 ranks, mb,nb in 1..2 with full / partial last tiles, all tile-aligned submatrices, nb_vp in 1..2 with all vpid tables, runtime-allocated and user tables");
+        g_nbvps = vp2; g_nnbvp = 2;
         gB = (bound_t){ 7, 8, 2, 2, 0, 0 };
-        RUN("band", e_band, "mb,nb 1..2, lm,ln 1..7, P*Q<=8, kp,kq 1..2, every band grid, band k 1..2, band_size 1..3, nb_vp {1,2,3,4,6}");
+        RUN("band", e_band, "mb,nb 1..2, lm,ln 1..7, P*Q<=8, kp,kq 1..2, every band grid, band k 1..2, band_size 1..3, nb_vp {1,6}");
+        g_nbvps = vps; g_nnbvp = 5;
         gB = (bound_t){ 10, 12, 2, 2, 0, 0 };
         RUN("symband", e_sband, "upper/lower, mb=nb 1..2, lm=ln 1..10, P*Q<=12, every band grid, band k 1..2, band_size 1..3, nb_vp {1,2,3,4,6}");
         gB = (bound_t){ 7, 6, 3, 3, 1, 0 };
